@@ -88,6 +88,19 @@ CLAIMED = {
             "and out-of-range indices), compared field by field, checked for well-formedness, and copies are scribbled over and freed in all orders.",
             "IUPAC symbol table embedded in the harness; macro-name normalisation rule derived from the tree (180/180 match)",
             "DESIGN.md 2/C15"),
+    "C18": ("generated differential testing: a dispatch table calling every xrlpp wrapper is generated from the C++ header and run side by side with the C interpreter over the C03 argument sweep (ASan+UBSan+LSan)",
+            "Every _XRL_FUNCTION instantiation (both string call forms) and every hand-written wrapper / class is executed on the same generated "
+            "argument tuples as the C function: values and object fields bit-identical, exception type by error code, what() == C message, heap "
+            "balanced per call, Crystal::Struct copy-constructed with the original destroyed first; unwrapped C functions of the wrapped families "
+            "and wrappers that do not compile are violations.",
+            "NULL strings / NULL crystals are not expressible through the wrappers; run on the Kissel-regenerated configuration so both outcomes occur",
+            "DESIGN.md 2/C18"),
+    "C20": ("exhaustive differential enumeration: per-language lexers (Fortran, Pascal, Cython, Java, IDL, C++, SWIG) vs a C header lexer for ~1500 constants x 7 files and all prototypes; exported symbols via nm; version strings",
+            "Every constant, macro family member, wrapped prototype (name, arity, argument kinds), exported symbol and version string is compared; "
+            "the space is finite and enumerated completely (22k comparisons). Lexers were validated by 72 single-token mutations of the binding files.",
+            "bodies of bindings cannot be executed here (no Fortran/Pascal/Cython/IDL tool chains): declarations only; 7 Pascal declarations that lack "
+            "the error argument are recorded as known findings",
+            "DESIGN.md 2/C20"),
 }
 
 NOT_YET = "check not built yet in this round (see DESIGN.md section 2 for its design)"
